@@ -65,6 +65,10 @@ def grad(model_out, *derivative_variable):
     for vari in derivative_variable:
         new_grad = torch.autograd.grad(model_out.sum(), vari, create_graph=True)[0]
         grad.append(new_grad)
+    if any(g.dim() > 2 for g in grad):
+        # several batch axes (e.g. functions x points x dim): the variables are still
+        # the columns, i.e. the last axis, of the gradient
+        return torch.cat(grad, dim=-1)
     return torch.column_stack(grad)
 
 
